@@ -40,23 +40,23 @@ def make_case(rng, i):
     def add(ns, f):
         names.extend(ns)
         feats.add(f)
-    if rng.random() < 0.6:
+    if rng.random() < 0.6 or i % 8 == 0:
         ladder = rng.choice([["Si+", "Si++", "Si+++", "Si++++"], ["C+", "C++", "C+++"], ["O-", "O--", "O---"], ["He+", "He++"], ["S-", "S--", "S+", "S++"]])
         add(ladder + rng.sample(["Fe+++", "Mg++", "N--"], 1), "multiply_charged")     # a whole charge ladder: every state needs its own identifier
-    if rng.random() < 0.6:
+    if rng.random() < 0.6 or i % 8 == 1:
         add(rng.sample(["oH2", "pH2", "oH2D+", "pH3+", "mD3+", "oD2"], 2), "labelled")
-    if rng.random() < 0.6:
+    if (rng.random() < 0.6 or i % 8 == 2) and i % 8 != 6:
         add(["#CO", "#H2O", "H2O"], "ice")
-    if rng.random() < 0.4:
+    if (rng.random() < 0.4 or i % 8 == 4) and i % 8 != 6:
         # grain groups have to match the surface-species groups ('#X' is group 0), otherwise naunet (rightly) refuses
         opts = [["GRAIN0", "GRAIN-"], ["GRAIN0", "GRAIN-", "GRAIN+"]] + ([] if "ice" in feats else [["GRAIN1", "GRAIN1-", "GRAIN2", "GRAIN2-"]])
         add(rng.choice(opts), "grain_groups")
-    if "ice" not in feats and "grain_groups" not in feats and rng.random() < 0.3:
+    if "ice" not in feats and "grain_groups" not in feats and (rng.random() < 0.3 or i % 8 == 6):
         # two grain populations with their own ice mantles: the same molecule on group 0 and on group 1 are two species
         add(["#CO", "#1CO", "CO", "#H2O", "#1H2O", "H2O", "GRAIN0", "GRAIN-", "GRAIN1", "GRAIN1-"], "two_grain_groups")
-    if rng.random() < 0.35:
+    if rng.random() < 0.35 or i % 8 == 5:
         add(["H2*"], "excited_star")
-    if rng.random() < 0.35:
+    if rng.random() < 0.35 or i % 8 == 1:
         add(rng.sample(["c-C3H2", "l-C3H2", "c-C3H", "l-C3H"], 2), "isomer_prefix")
     upper = (i % 4 == 3)
     if upper:
